@@ -57,7 +57,8 @@ int self_id();                                        // -1 when not a scheduled
 
 // internal interface used by the types below
 void yield_point(Kind k, const void * obj);
-void block_on_cv(const void * cv);                    // returns when notified and stepped
+bool block_on_cv(const void * cv, bool timed = false); // returns when woken and stepped: true = by a notify,
+                                                      // false = spurious wake-up / time-out of a timed wait
 void block_on_mutex(const void * m);
 void notify_cv(const void * cv, bool all);
 bool is_untracked(const void * m);
@@ -132,6 +133,37 @@ class verif_condvar {
         lk.mutex()->release();
         vsched::block_on_cv(this);
         lk.mutex()->acquire();
+    }
+    // Timed waits: time is abstract under the scheduler - a timed wait may time out at any moment, so a thread
+    // parked in one is always steppable (the step is its time-out) and a notify wakes it like any other waiter.
+    template <class Lock, class Rep, class Period, class Pred>
+    bool wait_for(Lock & lk, const std::chrono::duration<Rep, Period> &, Pred pred) {
+        while (!pred()) {
+            if (vsched::self_id() < 0) {
+                fprintf(stderr, "vsync: unscheduled thread would block on a condition variable\n");
+                abort();
+            }
+            lk.mutex()->release();
+            bool notified = vsched::block_on_cv(this, true);
+            lk.mutex()->acquire();
+            if (!notified) return pred();
+        }
+        return true;
+    }
+    template <class Lock, class Rep, class Period>
+    std::cv_status wait_for(Lock & lk, const std::chrono::duration<Rep, Period> &) {
+        lk.mutex()->release();
+        bool notified = vsched::block_on_cv(this, true);
+        lk.mutex()->acquire();
+        return notified ? std::cv_status::no_timeout : std::cv_status::timeout;
+    }
+    template <class Lock, class Clock, class Duration, class Pred>
+    bool wait_until(Lock & lk, const std::chrono::time_point<Clock, Duration> &, Pred pred) {
+        return wait_for(lk, std::chrono::seconds(0), pred);
+    }
+    template <class Lock, class Clock, class Duration>
+    std::cv_status wait_until(Lock & lk, const std::chrono::time_point<Clock, Duration> &) {
+        return wait_for(lk, std::chrono::seconds(0));
     }
 };
 
